@@ -46,6 +46,26 @@ def _env(o, **extra):
     return e
 
 
+ATTRS = ("r", "epsilon", "sigma", "r_c", "shift")
+FRAME = "frame:the-object's-parameters(r,epsilon,sigma,r_c,shift)-are-not-modified"
+
+
+def _frame_goal(inp):
+    """the PairInteractions object after the call holds the parameters it held before (a later request on the same object must be
+    answered with the shift setting and the parameters the caller constructed it with)"""
+    before, after = inp["attrs0"], inp["o"].content
+    if set(after) != set(before):
+        return False
+    goals = []
+    for k in ATTRS:
+        a, b = before[k], after[k]
+        if isinstance(a, bool) or isinstance(b, bool):
+            goals.append(a is b)
+        else:
+            goals.append(sv.cmp("==", a, b))
+    return sv.and_(*goals)
+
+
 class _Model(Unit):
     module = MOD
     prop = "C12"
@@ -67,10 +87,10 @@ class _Model(Unit):
         ex = self.extra(ctx)
         env = _env(o, **ex)
         self.requires(ctx, env)
-        return [o], {k: v for k, v in ex.items()}, {"env": env, "shift": case == "shift"}
+        return [o], {k: v for k, v in ex.items()}, {"env": env, "shift": case == "shift", "o": o, "attrs0": dict(o.content)}
 
     def clause_names(self, case):
-        return ["s1=ds/dr", "s1rc=ds/dr(rc)|0", "s2=d2s/dr2", "result-shape"]
+        return ["s1=ds/dr", "s1rc=ds/dr(rc)|0", "s2=d2s/dr2", "result-shape", FRAME]
 
     def replay(self, case, clause, model, seed):
         return _replay_model(self.model, case == "shift", model, seed, hertz=self.model == "harmonic_hertz", clause=clause)
@@ -82,6 +102,7 @@ class _Model(Unit):
         yield "s1=ds/dr", sv.cmp("==", res[0], s1)
         yield "s1rc=ds/dr(rc)|0", sv.cmp("==", res[1], s1rc)
         yield "s2=d2s/dr2", sv.cmp("==", res[2], s2)
+        yield FRAME, _frame_goal(inp)
 
 
 def _frac(x, default):
@@ -98,7 +119,7 @@ def _frac(x, default):
         return default
 
 
-def _replay_model(unit_model, case_shift, model, seed, hertz=False, clause=""):
+def _replay_model(unit_model, case_shift, model, seed, hertz=False, clause="", int_alpha=None):
     """concrete replay against the real PairInteractions (runs under /venv/bin/python)"""
     import importlib
     import random
@@ -109,6 +130,7 @@ def _replay_model(unit_model, case_shift, model, seed, hertz=False, clause=""):
 
     def one(vals):
         obj = H.PairInteractions(vals["r"], vals["epsilon"], vals["sigma"], vals["r_c"], case_shift)
+        before = dict(vars(obj))
         if unit_model == "lennard_jones":
             got = obj.lennard_jones()
         elif unit_model == "inverse_power_law":
@@ -117,6 +139,8 @@ def _replay_model(unit_model, case_shift, model, seed, hertz=False, clause=""):
             got = obj.harmonic_hertz(alpha=vals["alpha"])
         want = spec_triple(unit_model, vals, case_shift, M=conc)
         bad = [i for i in range(3) if not conc.close(float(got[i]), float(want[i]), rel=1e-7, abs_=1e-9)]
+        if dict(vars(obj)) != before:
+            bad.append("object attributes modified: " + str({k: (before.get(k), v) for k, v in vars(obj).items() if before.get(k) != v}))
         return bad, [float(x) for x in got], [float(x) for x in want]
 
     def sample(first):
@@ -125,7 +149,12 @@ def _replay_model(unit_model, case_shift, model, seed, hertz=False, clause=""):
             v[k] = _frac(model.get(k), None) if first else None
             if v[k] is None:
                 v[k] = d if first else rng.uniform(0.3, 3.0)
-        if hertz:
+        if hertz and int_alpha is not None:      # integer exponent: any distance, on both sides of contact
+            v["r_c"] = v["sigma"]
+            v["alpha"] = float(int_alpha)
+            if not first:
+                v["r"] = v["sigma"] * rng.uniform(0.1, 2.5)
+        elif hertz:
             v["r_c"] = v["sigma"]
             if not (0 < v["r"] < v["sigma"]):
                 v["r"] = v["sigma"] * rng.uniform(0.1, 0.95)
@@ -163,15 +192,37 @@ class Hertz(_Model):
     qualname = "PairInteractions.harmonic_hertz"
     model = "harmonic_hertz"
 
+    # the documented s(r) = eps/alpha (1 - r/sigma)^alpha is a real number for every distance when alpha is an integer (harmonic
+    # alpha = 2, ...) and for r < sigma when alpha is any real > 1 (Hertz 5/2): symbolic alpha with r < sigma, and concrete integer
+    # exponents with NO restriction on r (pairs beyond contact, r_cut > sigma)
+    INT_ALPHAS = (2, 3, 4)
+
+    def cases(self):
+        return ["shift", "noshift"] + [f"{sh}/alpha={a}/any-distance" for sh in ("shift", "noshift") for a in self.INT_ALPHAS]
+
+    def _alpha(self, case):
+        parts = case.split("/")
+        return int(parts[1].split("=")[1]) if len(parts) > 1 else None
+
     def extra(self, ctx):
         return dict(alpha=ctx.real("alpha"))
 
-    def requires(self, ctx, env):
+    def setup(self, ctx, case):
+        sh = case.split("/")[0] == "shift"
+        a = self._alpha(case)
+        o = _self(ctx, sh)
+        ex = dict(alpha=ctx.real("alpha") if a is None else a)
+        env = _env(o, **ex)
         ctx.assume(env["r"] > 0)
         ctx.assume(env["sigma"] > 0)
-        ctx.assume(env["r"] < env["sigma"])
         ctx.assume(sv.cmp("==", env["r_c"], env["sigma"]))
-        ctx.assume(env["alpha"] > 1)
+        if a is None:
+            ctx.assume(env["r"] < env["sigma"])
+            ctx.assume(env["alpha"] > 1)
+        return [o], dict(ex), {"env": env, "shift": sh, "o": o, "attrs0": dict(o.content)}
+
+    def replay(self, case, clause, model, seed):
+        return _replay_model(self.model, case.split("/")[0] == "shift", model, seed, hertz=True, clause=clause, int_alpha=self._alpha(case))
 
 
 class Caller(Unit):
@@ -198,10 +249,10 @@ class Caller(Unit):
             ctx.assume(env["r"] < env["sigma"])
             ctx.assume(sv.cmp("==", env["r_c"], env["sigma"]))
             ctx.assume(env["alpha"] > 1)
-        return [o, params], {}, {"env": env, "shift": sh == "shift", "model": model}
+        return [o, params], {}, {"env": env, "shift": sh == "shift", "model": model, "o": o, "attrs0": dict(o.content)}
 
     def clause_names(self, case):
-        return ["triple-of-requested-model"]
+        return ["triple-of-requested-model", FRAME]
 
     def replay(self, case, clause, model, seed):
         import importlib
@@ -231,6 +282,18 @@ class Caller(Unit):
             if got is None or len(got) != 3 or any(not conc.close(float(a), float(b), rel=1e-7, abs_=1e-9) for a, b in zip(got, want)):
                 return {"ran": True, "failed": True, "inputs": v, "got": [float(x) for x in got] if got is not None else None,
                         "expected": [float(x) for x in want], "searched": k + 1}
+            # the selector is a query: a later request for ANOTHER model on the same object is answered from the same parameters
+            for other in POTENTIALS:
+                if other == mname or (other == "harmonic_hertz" and not (v["r"] < v["sigma"])):
+                    continue
+                p2 = H.InteractionParams(model_name=getattr(H.ModelName, other), ipl_n=v["n"], ipl_A=v["A"], harmonic_hertz_alpha=v["alpha"])
+                v2 = dict(v)
+                got2 = obj.caller(p2)
+                want2 = spec_triple(other, v2, sh == "shift", M=conc)
+                if other != "harmonic_hertz" and any(not conc.close(float(a), float(b), rel=1e-7, abs_=1e-9) for a, b in zip(got2, want2)):
+                    return {"ran": True, "failed": True, "inputs": v, "sequence": [mname, other], "got": [float(x) for x in got2],
+                            "expected": [float(x) for x in want2], "searched": k + 1,
+                            "detail": f"after caller({mname}) the same object answers caller({other}) with {[float(x) for x in got2]}, the documented triple is {[float(x) for x in want2]}"}
         return {"ran": True, "failed": False, "searched": 100}
 
     def ensures(self, ctx, case, inp, out):
@@ -238,6 +301,7 @@ class Caller(Unit):
         s1, s1rc, s2 = spec_triple(inp["model"], inp["env"], inp["shift"])
         yield "triple-of-requested-model", sv.and_(len(res) == 3, sv.cmp("==", res[0], s1), sv.cmp("==", res[1], s1rc),
                                                    sv.cmp("==", res[2], s2))
+        yield FRAME, _frame_goal(inp)
 
 
 def _model_summary(model, argnames):
@@ -278,6 +342,6 @@ UNITS = [LJ(), IPL(), Hertz(), Caller()]
 
 
 MANIFEST = {
-    "text": 'For all real r, epsilon, sigma, r_c > 0, exponents n, alpha and prefactor A, both shift settings: the triple returned by each of the three model methods (real AST, re-read every run) equals (ds/dr, ds/dr(r_c)|0, d2s/dr2) of the documented potential, the derivatives being produced by symbolic differentiation of the documented s(r); the selector returns the triple of the requested model (callee contracts, not bodies). Every obligation is an SMT unsat result.',
-    "note": 'floats as reals (A1); symbolic exponents via uninterpreted POW with shift axioms; differentiation rules of pyvc/diff.py trusted; Hertz: documented convention r_c = sigma, alpha > 1, r < sigma as precondition',
+    "text": 'For all real r, epsilon, sigma, r_c > 0, exponents n, alpha and prefactor A, both shift settings: the triple returned by each of the three model methods (real AST, re-read every run) equals (ds/dr, ds/dr(r_c)|0, d2s/dr2) of the documented potential, the derivatives being produced by symbolic differentiation of the documented s(r); the selector returns the triple of the requested model (callee contracts, not bodies); frame: every method and the selector leave the object\'s parameters (r, epsilon, sigma, r_c, shift) unmodified, so a sequence of requests on one object is answered from the parameters it was constructed with. Harmonic/Hertz: symbolic real alpha > 1 for r < sigma, and the integer exponents 2, 3, 4 at ANY distance (pairs beyond contact). Every obligation is an SMT unsat result.',
+    "note": 'floats as reals (A1); symbolic exponents via uninterpreted POW with shift axioms; differentiation rules of pyvc/diff.py trusted; Hertz: documented convention r_c = sigma; for a non-integer exponent the documented power is a real number only for r < sigma (precondition of the symbolic-alpha cases, alpha > 1); integer exponents are enumerated (2, 3, 4), not symbolic',
 }
